@@ -87,6 +87,17 @@ Definition guard_tags (f : req) (s : sk) : list nat :=
   ++ tag (g_rem_periph_rates f s) 63 ++ tag (g_keeps_bio f s) 64.
 
 
+(* Environment conditions under which the STATEMENT layers (not modelled) are known to fail; they are
+   not conjuncts of `guard` (the graph model has no counter-model for them), only tags that let the
+   harness attribute an observed tag-12 exception to a listed finding:
+   81  transits are created on a model without transits whose elimination rate is a left-over bare
+       K symbol (NONMEM model after a transit round trip): update_source cannot renumber the rates *)
+Definition env_transit_named_rates (f : req) (s : sk) : bool :=
+  negb (match f with
+        | Transits n _ => negb (Nat.eqb n 0) && Nat.eqb (s_transits s) 0 && negb (s_elq s) && elk_eqb (s_elim s) EFO
+        | _ => false end).
+Definition env_tags (f : req) (s : sk) : list nat := tag (env_transit_named_rates f s) 81.
+
 (* the property itself, on the implementation's own outputs *)
 Definition oracle (envs : list (list (id * Q))) (f : req) (g : graph) (s : sk) (o : ostep) : list nat :=
   match o_res o with
@@ -129,7 +140,7 @@ Definition step_verdict (envs : list (list (id * Q))) (g : graph) (o : ostep) : 
      | _ => []
      end
   ++ match skeleton_of g with
-     | Some s => corr_step f s (o_res o) ++ oracle envs f g s o ++ guard_tags f s
+     | Some s => corr_step f s (o_res o) ++ oracle envs f g s o ++ guard_tags f s ++ env_tags f s
      | None => [71]
      end.
 
